@@ -54,7 +54,7 @@ Input space (explicit bound; deterministic given the seed):
     singletons_phased, max_iterations {1, 5, None}, regularise_roots; inside_outside: probability_space,
     outside_standardize, ignore_oldest_root; maximization: probability_space).
   quick  : every input x every accepting method x 2 of the 7 time scales (rotating over inputs) x 2 option draws
-           (~640 date() calls), plus ~450 direct constrain_ages calls; ~30 s CPU.
+           (1 for the tree shapes; ~460 date() calls), plus ~450 direct constrain_ages calls; ~30 s CPU.
   thorough: 5-leaf shapes and 4x the simulations; every input x method x all 7 scales (2 for 5-leaf shapes) x 4
            option draws (~14 000 date() calls) plus ~13 000 direct constrain_ages calls; ~6-10 min.
   Inputs with ancestral/root samples are additionally dated with the mutation rate understated 10x and 50x at scales
@@ -455,7 +455,8 @@ def run(req, rep):
         for method in case.methods():
             for si, scale in enumerate(scales):
                 ts = case.ts if scale == 1.0 else inputs.scale_times(case.ts, scale)
-                for j, kw in enumerate(method_configs(case, method, rng, ndraw)):
+                k = 1 if (not thorough and case.name.startswith("shape")) else ndraw
+                for j, kw in enumerate(method_configs(case, method, rng, k)):
                     mbl = [None, 1e-8, 1e-3 * scale, 50.0 * scale][(j + si + ci) % 4]
                     ci_opt = [None, 0, 3, 100][int(rng.integers(4))]
                     if mbl is not None:
@@ -478,7 +479,7 @@ def run(req, rep):
     rep.bound = (f"{len(cases)} inputs (<= {max(c.ts.num_nodes for c in cases)} nodes, <= "
                  f"{max(c.ts.num_mutations for c in cases)} mutations), {calls} date() calls: "
                  f"{'7 time scales (2 for 5-leaf shapes)' if thorough else '2 of 7 time scales (rotating)'} per input, "
-                 f"{ndraw} option draws per (input, method, scale); plus direct constrain_ages calls on every "
+                 f"{ndraw} option draws per (input, method, scale){'' if thorough else ' (1 for tree shapes)'}; plus direct constrain_ages calls on every "
                  f"{'2nd (4th for 5-leaf shapes)' if thorough else '4th'} input x {'7' if thorough else '4'} scales x "
                  f"4 adversarial age vectors x 2 epsilons x {'2' if thorough else '1'} iteration settings")
     rep.notes.append(f"date() calls that raised (not cases of this property): {raised}")
